@@ -95,7 +95,7 @@ func groupConflicts(allConflicts []conflict, pass *analysishelper.EnhancedPass) 
 				// from different functions. To handle such cases, we prepend the enclosing function name to the key.
 				conf := pass.ResultOf[config.Analyzer].(*config.Config)
 				for _, file := range pass.Files {
-					fileName := tokenhelper.RelToCwd(pass.Fset.Position(file.FileStart).Filename)
+					fileName := tokenhelper.RelToCwd(pass.Fset.PositionFor(file.FileStart, false /* adjusted */).Filename)
 					// Check if the file is in scope and the conflict position is in the same file
 					if !conf.IsFileInScope(file) || fileName != c.position.Filename {
 						continue
